@@ -1561,13 +1561,19 @@ class PyCdlib:
         Returns:
          Nothing.
         """
+        # The boot records come directly after the first PVD (El Torito wants
+        # its boot record at extent 17); copies of the PVD follow them.
         current_extent = 16
-        for pvd in self.pvds:
+        for pvd in self.pvds[:1]:
             pvd.set_extent_location(current_extent)
             current_extent += 1
 
         for br in self.brs:
             br.set_extent_location(current_extent)
+            current_extent += 1
+
+        for pvd in self.pvds[1:]:
+            pvd.set_extent_location(current_extent)
             current_extent += 1
 
         for svd in self.svds:
@@ -3009,7 +3015,8 @@ class PyCdlib:
         # First write out the PVDs.  All of the copies are identical, also in the
         # modification date that is taken when the record is generated.
         rec = self.pvd.record()
-        for pvd_unused in self.pvds:
+        for pvd in self.pvds:
+            outfp.seek(pvd.extent_location() * self.logical_block_size)
             self._outfp_write_with_check(outfp, rec)
             progress.call(len(rec))
 
